@@ -7,7 +7,9 @@ MODULE = "DrandProofs.C02"
 DEPENDS = ["C18", "C10"]  # base store = sorted map (C18); stores filled by sync, incl. follow mode without the append layer, are written in order (C10): re-checked with this property (check, P5b)
 THEOREMS = ["Drand.Chain." + t for t in [
     "c02_init_inv", "c02_put_inv", "c02_restart", "c02_chain_inv", "c02_append_only", "c02_reput_head",
-    "c02_gap_refused", "c02_agree", "c02_resync_sound", "c02_restart_genesis", "c02_failed_write_no_effect", "tie_appendStore_locked"]]
+    "c02_gap_refused", "c02_agree", "c02_resync_sound", "c02_restart_genesis", "c02_failed_write_no_effect", "tie_appendStore_locked",
+    "c02_put_ok_stored", "c02_put_err_no_effect", "c02_stack_is_generic", "c02_put_ok_stored_counterexample",
+    "c02_concurrent_same_round_one_winner", "c02_concurrent_unchained_first_wins"]]
 TRUSTED = ["Lean 4 kernel; axioms per theorem under coverage.axioms",
            "the base store is the sorted map of C18 (bbolt/memdb refine it: C18's correspondence)",
            "sync.Mutex gives mutual exclusion: appendStore.Put holds its mutex for its whole body (regenerated lock fact), so interleavings of the aggregation and sync paths are sequences of Puts",
@@ -22,7 +24,7 @@ def sig_of(rng, r, alt=False):
     return f"{(r * 7 + (1 if alt else 0)) % 256:02x}{r % 256:02x}"
 
 
-def gen_sequence(rng, chained, ring=False):
+def gen_sequence(rng, chained, ring=False, races=False):
     seed = rng.choice(["aa", "5eed", "00"])
     scheme = SCHEMES[0] if chained else rng.choice(SCHEMES[1:])
     seq = [f"init {scheme} {seed}"]
@@ -63,6 +65,18 @@ def gen_sequence(rng, chained, ring=False):
             elif rng.chance(1, 2):   # the round after a failed write must still be refused
                 seq.append(f"put {r + 1} {sig_of(rng, r + 1)} {rng.choice([sigs[head], sig_of(rng, r)]) if chained else '-'}")
                 seq.append("scan")
+        elif k < 88:    # a Put whose context is cancelled before the call / while it is queued behind another writer of the
+            # base store / after it returned; then what the layer above does: retry the round, go on with the next one
+            r = head + 1
+            s = sig_of(rng, r)
+            p = sigs[head] if chained else "-"
+            seq.append(f"qput {rng.choice(['before', 'during', 'during', 'after'])} {r} {s} {p}")
+            seq += [f"get {r}", f"put {r} {s} {p}", f"get {r}"]
+            head, sigs[r] = r, s
+            r = head + 1
+            s = sig_of(rng, r)
+            seq += [f"put {r} {s} {sigs[head] if chained else '-'}", "scan"]
+            head, sigs[r] = r, s
         elif k < 90:
             seq.append("restart")
         elif k < 94:
@@ -70,6 +84,10 @@ def gen_sequence(rng, chained, ring=False):
         else:
             seq.append("scan")
     seq += ["scan", "restart", "scan", "last"]
+    if races:
+        # k writers (aggregator, sync manager, …) leave a barrier to Put a beacon of the same next round, 25 rounds in a row:
+        # the same beacon, then k different signatures
+        seq += [f"brace {rng.range(2, 5)} 25 same", "scan", f"brace {rng.range(2, 4)} 25 diff", "scan"]
     return seq
 
 
@@ -87,15 +105,49 @@ def oracle_seq(seq, outs, window=None):
     """C02 on the implementation's own answers: gap-free 0..head, linked, append-only, no rewrite."""
     chained = seq[0].split()[1] == SCHEMES[0]
     store = None
+    exp = {}
     for op, out in zip(seq, outs):
         f = op.split()
-        if out.startswith("err:") or out.startswith("panic"):
+        if out.startswith("err:") or out.startswith("panic") or out in ("hang", "bad-op"):
             return f"{op}: unexpected outcome {out}"
         if f[0] == "race":
             # concurrent writers: every beacon appended exactly once, nobody failed
             oks = out.split()[1].split("=")[1].split(",")
             if out.split()[2] != "bad=0" or any(o != "1" for o in oks):
                 return f"{op}: concurrent writers produced {out} (each round must be appended exactly once)"
+        if f[0] in ("put", "qput", "failput"):
+            # direct: whenever the stack's Put answers ok, the beacon is readable from the base store
+            a = f[1:] if f[0] != "qput" else f[2:]
+            res = out.split(" get=")[0]
+            if res == "ok":
+                exp[int(a[0])] = (a[1], a[2] if chained else "-")
+            if f[0] == "qput":
+                got = out.split(" get=")[1]
+                r = int(a[0])
+                if res == "ok" and got != f"{r} {exp[r][0]} {exp[r][1]}":
+                    return f"{op}: the stack's Put answered ok but the base store's Get({r}) returns {got!r}"
+                if res == "err-write" and r not in exp and got != "none":
+                    return f"{op}: Put answered with the write error, yet round {r} is stored: {got!r}"
+                if f[1] == "after" and res == "err-write":
+                    return f"{op}: the context was live during the whole Put, yet the write failed"
+        if f[0] == "get":
+            r = int(f[1])
+            if r in exp and not (window is not None and r + window <= max(exp)):
+                if out != f"{r} {exp[r][0]} {exp[r][1]}":
+                    return f"a Put of round {r} answered ok ({exp[r]}) but Get({r}) on the base store returns {out!r}"
+        if f[0] == "brace":
+            # k concurrent Puts of round head+1: exactly one is accepted, the callback fires once, nothing else happens
+            d = dict(t.split("=") for t in out.split()[1:])
+            k = int(f[1])
+            for name in ("ok", "cb"):
+                if any(x != "1" for x in d[name].split(",")):
+                    return (f"{op}: {k} concurrent Puts of the same round: Put answered nil {d['ok']} times and the callback fired {d['cb']} times "
+                            f"per round (each must be exactly 1)")
+            lose = "already" if f[3] == "same" else "diffsig"
+            if any(x != "0" for x in d["other"].split(",")) or any(x != str(k - 1) for x in d[lose].split(",")):
+                return f"{op}: the losers of a race must all be told '{lose}': {out}"
+            store = None     # the scan that follows starts a new comparison (the winners' signatures are the implementation's)
+            continue
         if f[0] == "scan":
             cur = parse_scan(out)
             rounds = [c[0] for c in cur]
@@ -123,6 +175,60 @@ def oracle_seq(seq, outs, window=None):
     return None
 
 
+def model_lines(lines, impl):
+    """echo style: the answer to a Put under a cancelled context, and who won each race, are the implementation's"""
+    out = []
+    for l, o in zip(lines, impl):
+        if l.startswith("qput "):
+            l += " " + (o.split() or ["?"])[0]
+        elif l.startswith("brace "):
+            l += " " + ([t for t in o.split() if t.startswith("win=")] or ["win=-"])[0]
+        out.append(l)
+    return out + lines[len(impl):]
+
+
+def run_chain(backend, lines, model_ok=True):
+    h = os.path.join(core.BUILD, "verifh")
+    rc, impl, err = core.run_lines(h, ["chain", backend], lines, env=dict(os.environ, GOMEMLIMIT="6GiB"))
+    if rc != 0:
+        raise core.Broken("harness:chain", f"exit {rc}: {err[-1500:]}")
+    model = None
+    if model_ok:
+        rc2, model, e2 = core.run_lines(os.path.join(core.LEAN, ".lake", "build", "bin", "vdriver"), ["chain", backend], model_lines(lines, impl))
+        if rc2 != 0:
+            raise core.Broken("model:chain", f"exit {rc2}: {e2[-1500:]}")
+    return impl, model
+
+
+def window_of(backend):
+    return int(backend[3:]) if backend.startswith("mem") and len(backend) > 3 else (2000 if backend == "mem" else None)
+
+
+def shrink(backend, seq, window):
+    """drop ops (never the init line) while the property oracle still fails on the real implementation"""
+    def run(s):
+        try:
+            o, _ = run_chain(backend, s, False)
+        except core.Broken:
+            return None, None
+        return o, (oracle_seq(s, o, window) if len(o) == len(s) else None)
+    cur = list(seq)
+    n = max(1, (len(cur) - 1) // 2)
+    while n >= 1:
+        i = 1
+        while i < len(cur):
+            cand = cur[:i] + cur[i + n:]
+            if len(cand) > 1 and run(cand)[1]:
+                cur = cand
+            else:
+                i += n
+        n //= 2
+    o, why = run(cur)
+    if not why:     # a race that does not show every time: keep the original
+        return seq, run(seq)[0], None
+    return cur, o, why
+
+
 def explore(ctx, res):
     rng = ctx["rng"]
     tier = "thorough" if ctx["deep"] else ctx["tier"]
@@ -131,25 +237,23 @@ def explore(ctx, res):
     diverged = None
     h = os.path.join(core.BUILD, "verifh")
     for backend in BACKENDS:
-        seqs = [gen_sequence(rng.fork(f"{backend}{i}"), i % 2 == 0, backend.startswith("mem")) for i in range(n)]
+        seqs = [gen_sequence(rng.fork(f"{backend}{i}"), i % 2 == 0, backend.startswith("mem"), races=(i % (20 if tier == "quick" else 100) in (1, 2))) for i in range(n)]
         lines = [l for s in seqs for l in s]
-        if ctx["model_ok"]:
-            impl, model = core.run_both("chain", [backend], lines)
-        else:
-            rc, impl, err = core.run_lines(h, ["chain", backend], lines)
-            model = None
+        impl, model = run_chain(backend, lines, ctx["model_ok"])
         total += len(lines)
         i = 0
         for s in seqs:
             outs = impl[i:i + len(s)]
             for o in outs:
-                k = o if o in ("ok", "already", "dup-diff-prev", "dup-diff-sig", "bad-round", "bad-prev", "err-write") else "read"
+                k = o if o in ("ok", "already", "dup-diff-prev", "dup-diff-sig", "bad-round", "bad-prev", "err-write") else ("qput:" + o.split()[0] if " get=" in o else ("brace" if o.startswith("brace") else "read"))
                 dist[k] = dist.get(k, 0) + 1
             if outs.count("ok") > 2:
                 nontriv.add((backend, tuple(s)))
-            why = oracle_seq(s, outs, window=(int(backend[3:]) if backend.startswith("mem") and len(backend) > 3 else (2000 if backend == "mem" else None)))
+            why = oracle_seq(s, outs, window=window_of(backend))
             if why:
-                res.add_violation({"engine": "chain", "backend": backend, "kind": "impl-violates", "ops": s, "observed": outs, "oracle": why})
+                small, souts, swhy = shrink(backend, s, window_of(backend))
+                res.add_violation({"engine": "chain", "backend": backend, "kind": "impl-violates", "ops": small, "observed": souts,
+                                   "oracle": swhy or why})
                 break
             if model is not None:
                 mo = model[i:i + len(s)]
